@@ -180,6 +180,7 @@ def readOnlyExterns : List String := [
   "(reflect.Value).MapIndex", "(reflect.Value).MapKeys", "(reflect.Value).MethodByName",
   "(reflect.Value).String", "(reflect.Value).Type", "(reflect.Value).Uint", "(reflect.Value).IsZero",
   "(reflect.Value).Field", "(reflect.Value).NumField", "(reflect.Value).MapRange", "(reflect.Value).CanInterface",
+  "(reflect.Value).Pointer",
   "maps.Clone", "slices.Clone", "reflect.DeepEqual", "reflect.Indirect", "reflect.MapOf", "reflect.New",
   "reflect.SliceOf", "reflect.TypeOf", "reflect.ValueOf", "strings.Join", "fmt.Sprintf", "fmt.Errorf",
   "fmt.Sprint", "errors.Is", "errors.Unwrap"
